@@ -172,6 +172,8 @@ func (h rmHist) String() string {
 		b.WriteString(" older-versions-loaded-on-a-copy-before-every-commit")
 	case 4:
 		b.WriteString(" reopened-before-every-commit(pruning options set after loading)")
+	case 5:
+		b.WriteString(" last-substore-mounted-before-commit-2")
 	}
 	for v, cs := range h.Choice {
 		fmt.Fprintf(&b, " v%d[", v+1)
